@@ -91,7 +91,7 @@ READERS = ("read_mnemonic", "read_character_data", "read_numeric_data", "read_nr
 def lexer_engine():
     P = D.prog()
     u = P.unit("scpi")
-    models = dict(M.BYTE_MODELS)
+    models = dict(M.FOLD_MODELS)
     for r_ in READERS:
         models["scpi::parser::tokenizer::Tokenizer::" + r_] = m_reader
     inl = ("scpi::parser::tokenizer::util::skip_ws", "scpi::parser::tokenizer::token::Token::is_data")
